@@ -19,10 +19,6 @@ class _MetaArray(type):
 
     @_intrinsic
     def __getitem__(cls, slice):
-        assert not hasattr(
-            cls, "_elemtype_"
-        ), f"{cls} is already specialized and cannot be specialized again"
-
         assert (
             isinstance(slice, tuple) and len(slice) == 2
         ), "cohdl.Array[] requires two arguments [DATA_TYPE, SIZE]"
@@ -35,6 +31,14 @@ class _MetaArray(type):
         assert is_primitive_type(elemtype)
 
         content_type = (elemtype, count)
+
+        if hasattr(cls, "_elemtype_"):
+            # cls is already specialized, only its own parameters can be requested again
+            assert content_type == (
+                cls._elemtype_,
+                cls._count_,
+            ), f"{cls} is already specialized and cannot be specialized again"
+            return cls
 
         if content_type in cls._SubTypes:
             return cls._SubTypes[content_type]
